@@ -222,6 +222,27 @@ def _values_equal(a: Any, b: Any) -> bool:
         return False
 
 
+def _edges_from_every_producer(nodes: dict[str, HyperNode], nx_graph: nx.DiGraph):
+    """Yield the graph's edges plus one data edge per further producer of a shared name.
+
+    The graph links a consumer to one producer of a name only. Other producers of
+    that name (exclusive gate branches, ordered producers) deliver the same value
+    name at run time, so in strict mode their output type must satisfy the
+    consumer as well.
+    """
+    for source_name, target_name, edge_data in nx_graph.edges(data=True):
+        yield source_name, target_name, edge_data
+        if edge_data.get("edge_type") != "data":
+            continue
+        for value_name in edge_data.get("value_names") or ():
+            for other in nodes.values():
+                if other.name in (source_name, target_name) or value_name not in other.data_outputs:
+                    continue
+                if nx_graph.has_edge(other.name, target_name) and value_name in (nx_graph.edges[other.name, target_name].get("value_names") or ()):
+                    continue
+                yield other.name, target_name, {"edge_type": "data", "value_names": [value_name]}
+
+
 def _validate_types(nodes: dict[str, HyperNode], nx_graph: nx.DiGraph) -> None:
     """Validate type compatibility between connected nodes.
 
@@ -231,7 +252,7 @@ def _validate_types(nodes: dict[str, HyperNode], nx_graph: nx.DiGraph) -> None:
 
     Only called when strict_types=True.
     """
-    for source_name, target_name, edge_data in nx_graph.edges(data=True):
+    for source_name, target_name, edge_data in _edges_from_every_producer(nodes, nx_graph):
         value_names = edge_data.get("value_names")
         if not value_names:
             continue
